@@ -40,3 +40,11 @@ claim("C03", "triesim", SIM + "recreate from any earlier committed root (warm, c
       "Every committed (root, map) is remembered; recreate/restart/cold-check steps must give that root and contents and further mutations must keep matching the canonical root. Sampling, not proof.", TRIE_NOTE)
 claim("C04", "triesim", SIM + "prover/verifier over a faulty proof channel: completeness, soundness and no-panic oracles",
       "Proofs generated from tries recreated from (faulty) disk for present and absent keys are verified for the same key, for related keys (misdelivery) and after drop/dup/swap/truncate/corrupt/foreign-root faults; accepted => key present; panics are violations. Sampling, not proof.", TRIE_NOTE)
+
+STATE_NOTE = "Trusts: the harness account model, SimDisk (no write faults, clean restarts only). Read errors are injected as 'all disk reads of the step fail' (AccountsDB iterates Go maps, so the n-th read would not replay); after a failed step only 'RevertToSnapshot(0) gives the last committed state' is asserted. An operation that returns an error without a fault is followed by a revert to the step's start, which must restore everything."
+claim("C06", "statesim", SIM + "refinement against an account model deep-copied at every journal snapshot; full comparison after nested/repeated reverts",
+      "Seeded histories of save/remove/snapshot/revert/revert(0)/commit/restart over a few addresses, shared code blobs and storage keys on the real AccountsDB stack over SimDisk; after each revert the root hash and every account field, code and storage value are compared with the copy taken at that journal length. Sampling, not proof.", STATE_NOTE)
+claim("C07", "statesim", SIM + "invariant oracle after every step: code entry exists iff referenced, NumReferences equals the number of referring accounts",
+      "Code-heavy histories (deploy shared, change, clear, remove, revert, commit, restart); the entry under every code hash is read from the current main trie after each step. Sampling, not proof.", STATE_NOTE)
+claim("C08", "statesim", SIM + "read-back oracle at four points (before save, after save, after commit, after restart) with caller buffer-sharing patterns in the plan",
+      "Storage-heavy histories where the driver passes sub-slices of a reused arena (spare capacity, key and value adjacent) and scribbles over it after the call; every value must read back byte-for-byte, deleted keys read empty. Sampling, not proof.", STATE_NOTE)
